@@ -6,7 +6,7 @@
     Spec:  PubSub/Spec.v ([expected] is a function of the history alone).
     All statements quantify over EVERY operation sequence [ops] (every
     interleaving of publishers, subscribers joining/leaving, clear/close). *)
-From NL Require Import PubSub.Model PubSub.Spec PubSub.Refine PubSub.Delivery PubSub.Main.
+From NL Require Import PubSub.Model PubSub.Spec PubSub.Refine PubSub.Delivery PubSub.Main PubSub.Broker.
 Open Scope Z_scope.
 
 (** the implementation model and the 40-line specification produce the same
@@ -55,6 +55,20 @@ Theorem C08_one_order : forall cache ops s b af,
   /\ exists pre, pubs (until_close h) = pre ++ pubs (until_close af).
 Proof. exact model_one_order. Qed.
 
+(** the broker (PubSub): for EVERY sequence of broker operations, every topic lifetime
+    (instance) that is no longer bound to a key has been ended, and keys are bound at most once *)
+Theorem C08_broker_unbound_is_ended : forall ops,
+  NoDup (map fst (b_map (bfinal ops))) /\
+  forall i it, nth_error (b_items (bfinal ops)) i = Some it ->
+    (exists k, In (k, i) (b_map (bfinal ops))) \/ i_closed it = true.
+Proof. exact BInv_reachable. Qed.
+
+(** PubSub.close() ends every lifetime that exists: with C08_termination, every iterator
+    handed out before close() terminates *)
+Theorem C08_broker_close_ends_everything : forall ops i it,
+  nth_error (b_items (bfinal (ops ++ [BClose]))) i = Some it -> i_closed it = true.
+Proof. exact close_ends_everything. Qed.
+
 (** non-vacuity: a run with two subscribers (one leaving early), a clear, a
     cache replay and a close, on which the hypotheses hold and the sequences
     are non-trivial *)
@@ -77,3 +91,5 @@ Print Assumptions C08_complete_when_finished.
 Print Assumptions C08_termination.
 Print Assumptions C08_latest.
 Print Assumptions C08_one_order.
+Print Assumptions C08_broker_unbound_is_ended.
+Print Assumptions C08_broker_close_ends_everything.
